@@ -425,14 +425,22 @@ func fullRangeIndex(ia *ssa.IndexAddr) (*ssa.BasicBlock, string) {
 	}
 	one, isC := constIntOf(add.Y)
 	phi, isPhi := add.X.(*ssa.Phi)
-	if !isC || one != 1 || !isPhi || len(phi.Edges) != 2 {
+	if !isC || one != 1 || !isPhi || len(phi.Edges) < 2 {
 		return nil, "the index is not a range index"
 	}
-	start, other := phi.Edges[0], phi.Edges[1]
-	if other != ssa.Value(add) {
-		start, other = other, start
+	// one edge enters with -1, every other edge (the end of the body, each `continue`) carries the stepped index
+	starts := 0
+	for _, e := range phi.Edges {
+		if e == ssa.Value(add) {
+			continue
+		}
+		if k, isK := constIntOf(e); isK && k == -1 {
+			starts++
+			continue
+		}
+		return nil, "the index does not start at the first element and step by one"
 	}
-	if k, isK := constIntOf(start); !isK || k != -1 || other != ssa.Value(add) {
+	if starts != 1 {
 		return nil, "the index does not start at the first element and step by one"
 	}
 	// the loop test: add < len(slice)
